@@ -514,6 +514,17 @@ func checkC06(c *Ctx) {
 			handFiles{"import-collision/in-a-module", map[string]string{"main.zn": "导入“中”\n输出 1\n", "中.zn": "导入“甲”之取值\n导入“乙”之取值\n令转 = 1\n", "甲.zn": two["甲.zn"], "乙.zn": two["乙.zn"]}, "error:43"},
 		)
 		c.runHandFiles("module-body", cases)
+		// the implicit names of a body that runs for an object (此, the receiver) are declarations of
+		// that body's block like its 输入 names: binding them again is a redeclaration
+		obj := "定义器：\n\t其数 = 42\n"
+		c.runHand("implicit-receiver-name", []handCase{
+			{"type-method/input-named-like-the-receiver", obj + "\t如何取？\n\t\t输入此\n\t\t输出 此\n令物 = （新建器）\n输出 以物（取：5）\n", "error:*"},
+			{"constructor/input-named-like-the-receiver", obj + "如何新建器？\n\t输入此\n\t其数 = 1\n输出（新建器：5）之数\n", "error:43"},
+			{"type-method/second-input-named-like-the-receiver", obj + "\t如何取？\n\t\t输入甲、此\n\t\t输出 甲\n令物 = （新建器）\n输出 以物（取：5、6）\n", "error:*"},
+			{"type-method/receiver-name-redeclared-in-body", obj + "\t如何取？\n\t\t令此 = 1\n\t\t输出 此\n令物 = （新建器）\n输出 以物（取）\n", "error:*"},
+			{"type-method/control-receiver-readable", obj + "\t如何取？\n\t\t输入甲\n\t\t输出 此之数 + 甲\n令物 = （新建器）\n输出 以物（取：1）\n", "num(43)"},
+			{"plain-method/name-is-free", "如何取？\n\t输入此\n\t输出 此\n输出（取：5）\n", "num(5)|error:*"},
+		})
 	}
 	c.runRefCases("scope", progs, ins, shapes, nil, func(i int, src string, ref zr.Result, resp *Resp) {
 		quiescent(c, "scope", shapes[i], src, resp)
